@@ -230,7 +230,7 @@ pub fn case_strategy() -> BoxedStrategy<Case> {
             let mut prefixes = vec![input.prefix(level + 1), Bits::from_seed(pseed | 2, level + 1)];
             prefixes.sort_by(|a, b| a.bools().cmp(&b.bools()));
             prefixes.dedup();
-            VdafSel::Poplar1 { bits, input, param: AggParamSpec { level, prefixes } }
+            VdafSel::Poplar1 { bits, input, param: AggParamSpec { level, prefixes, heads: vec![] } }
         }),
         1 => (1usize..=20).prop_map(|len| VdafSel::Prio2 { len }),
         1 => (1u8..=4).prop_map(|rounds| VdafSel::Dummy { rounds }),
